@@ -16,6 +16,7 @@ import (
 
 func init() {
 	register(&Property{ID: "C08", Run: runC08, Mutants: []Mutant{
+		{Name: "shift count asserted to be an integer constant whatever its value", File: "internal/types/expr.go", Old: "\t\tif yval.Kind() == constant.Unknown {", New: "\t\tif false {", Expect: "constant-kind-assert-guarded"},
 		{Name: "the predeclared any is a bare interface value", File: "internal/types/universe_wa.go", Old: "token.K_any, (&Interface{}).Complete()))", New: "token.K_any, &Interface{}))", Expect: "universe-interfaces-complete"},
 		{Name: "a string literal starts one byte before its body whatever the opener", File: "internal/scanner/scanner.go", Old: "\t// '\"' opening already consumed\n\toffs := s.offset - quoteWidth\n", New: "\t// '\"' opening already consumed\n\t_ = quoteWidth\n\toffs := s.offset - 1\n", Expect: "literal-start-matches-opener"},
 		{Name: "the .wa printer reads the receiver's name without looking at the list", File: "internal/printer/nodes.go", Old: "\t\tif len(d.Recv.List) > 0 && len(d.Recv.List[0].Names) > 0 && d.Recv.List[0].Names[0].Name == \"this\" {", New: "\t\tif d.Recv.List[0].Names[0].Name == \"this\" {", Expect: "receiver-name-guarded"},
